@@ -152,6 +152,24 @@ CLAIMED = {
         text="Stage 2 is rebuilt from the current tree on every run. Both binaries (same basename, different directories) are run with identical arguments on every input x target x {compile, -E}; stdout, stderr and exit status must be "
              "byte-identical, and stage 2 must reproduce the stage-1 IL of every source of the compiler.",
         note="Stage 2 goes through il2c + gcc -O1 rather than QBE + as + ld, so defects of the real backend are out of reach; inputs on which stage 1 crashes are skipped (C19)."),
+    "C17": dict(
+        category="exploration", design_ref="DESIGN.md 3/C17, 11",
+        engine="hypothesis",
+        technique="model-based property testing of the driver: Hypothesis draws command lines from the option grammar of cproc(1); the driver (three builds, one per target triple) runs with recording stand-in tools; argv, pipe identity, inherited descriptors, outputs and exit status are compared with a model written from cproc.1/README",
+        text="Command lines with up to 6 inputs of all 7 types (by suffix and -x), every mode flag (also repeated), -o in all forms, every forwarding option attached and detached, ignored, unknown and dangling options, "
+             "and a second source with undocumented-but-accepted options (weaker oracle): stages per input, pipe order, each tool's argument multiset and per-group order, link-line order, output names, "
+             "-v trace, usage errors (status 2, nothing run, nothing written) must match the model. Exploration level.",
+        note="The tools are stand-ins (native/stub.c), so only the driver's own behaviour is observed; where cproc.1 is silent every behaviour is accepted (marked PERMISSIVE in vlib/props/c17.py); two recorded findings "
+             "(-emit-qbe default output, -pthread position) are matched only when the observation equals the model with exactly that rule changed."),
+    "C18": dict(
+        category="fault_enumeration", design_ref="DESIGN.md 3/C18, 11",
+        engine="enumeration+hypothesis",
+        technique="fault injection through stand-in tools: exhaustive enumeration of single faults (pipeline shape x stage instance x fault kind x fast/slow neighbours) plus Hypothesis multi-fault vectors with delays and large outputs; invariants of the property statement as oracle, orphan detection via PR_SET_CHILD_SUBREAPER",
+        text="Every single-fault vector over 1-3 inputs x last stage in {preprocess, compile, codegen, assemble, link} x {command missing, exit 1 before reading / after half the output / after finishing, SIGSEGV, SIGKILL} is enumerated "
+             "(exhaustive for that space); multi-fault vectors, delays, mixed input types and outputs larger than a pipe buffer are drawn. Any fault must give exit status > 0, no link step, no outputs of failing pipelines, "
+             "no temporary object left, no stage process orphaned or still running, slow neighbours terminated, termination within 20 s; fault-free vectors must succeed with complete outputs.",
+        note="Faults are those a stand-in can produce (exit status, signals, missing command, partial output, delay); kernel-level interleavings are not enumerated, termination orders are forced with delays only; "
+             "temporaries are recognised by the /tmp/cproc-XXXXXX names seen in argv or the -v trace."),
 }
 
 NOT_YET = "check not built yet in this round (planned per DESIGN.md section 10); no claim is made"
@@ -166,6 +184,7 @@ m = dict(
     engines=[
         dict(name="hypothesis", path="vlib/runner.py", serves_properties=[], kind_free_text="Hypothesis 6.168 strategies driven by a 16-process worker pool; shrinking; replay files"),
         dict(name="libfuzzer", path="native/fuzz_harness.c", serves_properties=["C19"], kind_free_text="clang 14 libFuzzer, fork-per-input harness with shared coverage counters, ASan+UBSan"),
+        dict(name="rapidcheck", path="native/maptree_rc.cpp", serves_properties=[], kind_free_text="rapidcheck in-process harness linking /repo's map.c, tree.c and util.c; RC_PARAMS seed from VERIF_SEED; also drives the exhaustive insertion-order enumeration"),
         dict(name="enumeration", path="vlib/runner.py", serves_properties=[], kind_free_text="bounded-exhaustive enumerators run through the same oracle functions"),
     ],
     checks=[], not_applicable=[],
